@@ -111,6 +111,7 @@ fn replay<const L: usize>(lines: &[String]) {
     let (id, h) = hdr.expect("no header");
     let mut run = Run::<_, L>::begin(&mut em, id, &h);
     for o in &ops { run.op(o); }
+    if let Ok(p) = std::env::var("VERIF_SAVE_JSON") { if !p.is_empty() { let _ = run.book.save_json(&p, p.ends_with("pretty.json")); } }
     run.end();
     em.w.flush().unwrap();
 }
@@ -191,6 +192,30 @@ fn main() {
                 st.points, st.market_points, st.files, st.offsets, st.cont_ops, st.status_seen, st.trading_off_points, st.samples);
         }
         "env-random" => env_random(&m),
+        "env-replay" => {
+            // explicit single-asset Env<10> script: `M id 0 10 seed t0 step trading 1 tick` and `O <env op>` lines
+            use bourse_verif_harness::envdrive::*;
+            let f = std::fs::File::open(m.get("file").expect("--file")).unwrap();
+            let lines: Vec<String> = std::io::BufReader::new(f).lines().map(|l| l.unwrap()).collect();
+            let h: Vec<u64> = lines.iter().find_map(|l| l.strip_prefix("M ")).expect("M line").split_whitespace().filter_map(|x| x.parse().ok()).collect();
+            let (id, seed, t0, step, trading, tick) = (h[0], h[3], h[4], h[5], h[6] == 1, h[8] as u32);
+            let out = std::io::stdout();
+            let mut w = BufWriter::new(out.lock());
+            let mut st = EStats::new();
+            let mut rng = new_rng(seed);
+            let mut t = TEnv::<10>(bourse_de::Env::<10>::new(t0, tick, step, trading));
+            let mut run = ERun::begin(&mut w, &mut st, id, &t, 10, seed, t0, step, trading, &[tick], &rng);
+            for l in &lines { if let Some(r) = l.strip_prefix("O ") { let o = EOp::decode(r).expect("bad env op"); run.op(&mut t, &mut rng, &o); } }
+            run.end(&t);
+            drop(w);
+        }
+        "json-obs" => {
+            // observation of a book loaded from a JSON snapshot (LEVELS = 10, as the Python class uses)
+            match bourse_book::OrderBook::<10>::load_json(m.get("file").expect("--file")) {
+                Ok(b) => println!("S {}", bourse_verif_harness::observe(&b)),
+                Err(e) => println!("ERR {}", e),
+            }
+        }
         "determinism-child" => {
             use bourse_verif_harness::simcheck::*;
             let c = cfg(num(&m, "cfg", 0), num(&m, "seed", 1));
